@@ -346,7 +346,8 @@ def project_mutation(m, names):
             rec['ival'] = [_abstract_constraint_dict(c, names) for c in (m.new_value or [])]
         elif m.prop_name == 'indexes':
             rec['ival'] = [{'fields': [rf(x) for x in ix.get('fields', [])],
-                            'name': ix.get('name', NONE)}
+                            'name': ix.get('name', NONE),
+                            'cond': index_cond(ix, names)}
                            for ix in m.new_value]
     elif isinstance(m, SQLMutation):
         rec.update(k='SQL')
